@@ -142,6 +142,74 @@ pub fn run(l: &[i128]) -> Vec<i128> {
             }
             vec![a.data().iter().zip(bb.data()).filter(|(x, y)| x != y).count() as i128, a.data().iter().filter(|x| **x != 0).count() as i128]
         }
+        Some(9) if l.len() >= 15 => {
+            // stroke_path(path, paint, stroke(w), ts) == stroke_path(ts(path), paint with the shader moved by ts, stroke(w * s), identity)
+            // for a similarity transform ts with scale s whose entries are small integers (mirrors, quarter turns, point
+            // reflection, x2): every coordinate is exact, so both draws see the same device geometry -- hairlines, thin
+            // anti-aliased strokes (coverage-modulated hairlines) and thick strokes alike
+            use tiny_skia::{GradientStop, LinearGradient, Pattern, Point, SpreadMode, Color, FilterQuality, Stroke, LineCap};
+            let t = ts(&l[1..7]);
+            let width = f(l[7]);
+            let aa = l[8] != 0;
+            let shader_kind = l[9];
+            let scale = f(l[10]);
+            let pts: Vec<f32> = l[11..].iter().map(|x| f(*x)).collect();
+            if pts.len() < 4 {
+                return vec![-3];
+            }
+            let mut pb = PathBuilder::new();
+            pb.move_to(pts[0], pts[1]);
+            for c in pts[2..].chunks_exact(2) {
+                pb.line_to(c[0], c[1]);
+            }
+            let path = match pb.finish() {
+                Some(p) => p,
+                None => return vec![-2],
+            };
+            let mut src = Pixmap::new(6, 5).unwrap();
+            for (i, p) in src.pixels_mut().iter_mut().enumerate() {
+                *p = tiny_skia::PremultipliedColorU8::from_rgba((i * 8) as u8, 255 - (i * 7) as u8, (i * 3) as u8, 255).unwrap();
+            }
+            let mk = || -> Paint {
+                let mut paint = Paint::default();
+                paint.anti_alias = aa;
+                match shader_kind {
+                    0 => paint.set_color_rgba8(20, 150, 100, 255),
+                    1 => {
+                        paint.shader = LinearGradient::new(Point::from_xy(0.0, 0.0), Point::from_xy(12.0, 5.0),
+                            vec![GradientStop::new(0.0, Color::from_rgba8(255, 0, 0, 255)), GradientStop::new(1.0, Color::from_rgba8(0, 0, 255, 255))],
+                            SpreadMode::Reflect, Transform::identity()).unwrap()
+                    }
+                    _ => paint.shader = Pattern::new(src.as_ref(), SpreadMode::Repeat, FilterQuality::Nearest, 1.0, Transform::from_translate(1.0, 2.0)),
+                }
+                paint
+            };
+            let cap = [LineCap::Butt, LineCap::Round, LineCap::Square][(l[9] as usize / 3) % 3];
+            let mut a = Pixmap::new(64, 64).unwrap();
+            let mut bb = Pixmap::new(64, 64).unwrap();
+            a.stroke_path(&path, &mk(), &Stroke { width, line_cap: cap, ..Stroke::default() }, t, None);
+            let p2 = match path.clone().transform(t) {
+                Some(p) => p,
+                None => return vec![-2],
+            };
+            let mut paint2 = mk();
+            paint2.shader.transform(t);
+            bb.stroke_path(&p2, &paint2, &Stroke { width: width * scale, line_cap: cap, ..Stroke::default() }, Transform::identity(), None);
+            // hairlines (width 0, or anti-aliased and at most one device pixel wide) walk the same device segments in both
+            // draws; wider strokes are outlined in different spaces (before / after the mirror or turn), so join and cap
+            // pixels may differ by a few coverage levels
+            let tol = if width == 0.0 || (aa && width * scale <= 1.0) { 2 } else if aa { 64 } else { 255 }; // aliased outlines through pixel centres: ties
+            let mut worst = 0i128;
+            let mut bad = 0i128;
+            for (x, y) in a.data().iter().zip(bb.data()) {
+                let d = (*x as i128 - *y as i128).abs();
+                if d > tol {
+                    bad += 1;
+                }
+                worst = worst.max(d);
+            }
+            vec![bad, a.data().iter().filter(|x| **x != 0).count() as i128, worst]
+        }
         _ => vec![-3],
     }
 }
